@@ -54,7 +54,7 @@ func genPlan(t *rapid.T) Plan {
 		case 2:
 			return Step{Kind: "update", Meta: rapid.IntRange(0, 2).Draw(t, "meta")}
 		}
-		s := Step{Kind: "claim", Claim: rapid.SampledFrom(kinds).Draw(t, "claim"), Subj: rapid.IntRange(0, 3).Draw(t, "subj"),
+		s := Step{Kind: "claim", Claim: rapid.SampledFrom(kinds).Draw(t, "claim"), Subj: rapid.SampledFrom([]int{0, 1, 2, 3, 0, 1, 2, 3, 4}).Draw(t, "subj"), // 4 = the node itself
 			IncD: rapid.SampledFrom([]int{-1, 0, 0, 1, 1, 2}).Draw(t, "incd"), AltAddr: rapid.IntRange(0, 5).Draw(t, "alt") == 0,
 			Meta: rapid.IntRange(0, 2).Draw(t, "meta"), From: rapid.IntRange(0, 3).Draw(t, "from")}
 		if len(s.Claim) > 3 && s.Claim[:3] == "pp-" {
@@ -65,8 +65,13 @@ func genPlan(t *rapid.T) Plan {
 		}
 		return s
 	}), 1, 16).Draw(t, "steps")
-	if rapid.IntRange(0, 2).Draw(t, "leave") == 0 {
+	switch rapid.IntRange(0, 5).Draw(t, "leave") {
+	case 0, 1:
 		p.Steps = append(p.Steps, Step{Kind: "leave"}, Step{Kind: "sleep", SleepMs: rapid.SampledFrom([]int{100, 3000}).Draw(t, "after")})
+	case 2:
+		// the node leaves in the middle and keeps running: claims (also about itself) keep arriving
+		at := rapid.IntRange(0, len(p.Steps)).Draw(t, "leaveat")
+		p.Steps = append(p.Steps[:at:at], append([]Step{{Kind: "leave"}}, p.Steps[at:]...)...)
 	}
 	return p
 }
@@ -140,7 +145,16 @@ func run(pl Plan) (res vfx.Result) {
 			p.Settle()
 			labels["leave"] = true
 		case "claim":
-			s := subj[st.Subj]
+			var s *puppet.Peer
+			if st.Subj == 4 {
+				s = &puppet.Peer{Name: "n0", IP: "10.0.0.1", Port: 7946}
+				labels["claim-about-self"] = true
+				if left {
+					labels["claim-about-self-after-leave"] = true
+				}
+			} else {
+				s = subj[st.Subj]
+			}
 			d, err := p.Dump()
 			if err != nil {
 				if left {
